@@ -98,7 +98,7 @@ end
 
 /-- The tokens of a raw value passed to `WriteValue`. -/
 def valueToks (o : Opts) (v : Bytes) : List Tok :=
-  match tokValue o (2 * v.length + 2) (skipWS v) with
+  match tokValue o (3 * v.length + 4) (skipWS v) with
   | some (ts, _) => ts
   | none => []
 
@@ -257,12 +257,10 @@ theorem reformatString_out {o : Opts} {src q name r : Bytes} (h : reformatString
     q = (appendQuote o name).1 := by
   unfold reformatString at h
   split at h
-  · split at h
-    · cases h
-    · simp only [Except.ok.injEq, Prod.mk.injEq] at h
-      obtain ⟨h1, h2, _⟩ := h
-      rw [← h1, ← h2]
-  · cases h
+  split at h
+  · simp only [Except.ok.injEq, Prod.mk.injEq] at h
+    obtain ⟨h1, h2, _⟩ := h
+    rw [← h1, ← h2]
   · cases h
 
 theorem NL_deep (f g : Frame) (r : List Frame) : NL (f :: g :: r) = [] := by simp [NL]
@@ -961,11 +959,11 @@ theorem namesAfterName_length (fs : Frames) (ns : List (List Bytes)) (name : Byt
 tokens, and the new state is the reachable state whose frames and names are those after these tokens. -/
 theorem writeValue_inv {o : Opts} {b : Nat} {fs : Frames} {ns : List (List Bytes)} {e e' : Enc}
     (hI : EncInv o b fs ns e) (hb : b + 2 < 2^61) (v : Bytes) (h : writeValue e v = (e', none)) :
-    ∃ toks rest fs' ns', tokValue o (2 * v.length + 2) (skipWS v) = some (toks, rest) ∧
+    ∃ toks rest fs' ns', tokValue o (3 * v.length + 4) (skipWS v) = some (toks, rest) ∧
       e'.out = e.out ++ renderFrom o fs toks ∧ trackRun o fs ns toks = some (fs', ns') ∧
       EncInv o (b + 2) fs' ns' e' := by
   rw [writeValue_nf, hI.opts] at h
-  cases hr : reformatValue o (2 * v.length + 2) (beforeToken e (valueKind v)) (skipWS v) e.m.depth with
+  cases hr : reformatValue o (3 * v.length + 4) (beforeToken e (valueKind v)) (skipWS v) e.m.depth with
   | error err => rw [hr] at h; simp at h
   | ok p =>
     obtain ⟨b', rest⟩ := p
@@ -1010,7 +1008,7 @@ theorem writeValue_inv {o : Opts} {b : Nat} {fs : Frames} {ns : List (List Bytes
             simp [NL, hst]
           by_cases hq : normKind c = 0x22
           · -- a raw string, possibly a member name
-            obtain ⟨name, ht, hdst, hrn⟩ := string_value o (2 * v.length + 1) e.out _ b' rest c s f r0 _ hq hbt hr
+            obtain ⟨name, ht, hdst, hrn⟩ := string_value o (3 * v.length + 3) e.out _ b' rest c s f r0 _ hq hbt hr
             have hlit : b'.drop (beforeToken e (valueKind v)).length = (appendQuote o name).1 := by
               rw [hdst]; simp
             refine ⟨[.str name], rest, f.bump :: r0, namesStep o (f :: r0) ns (.str name),
@@ -1035,7 +1033,7 @@ theorem writeValue_inv {o : Opts} {b : Nat} {fs : Frames} {ns : List (List Bytes
                 rw [if_neg hq] at hstp
                 split at hstp <;> (try split at hstp) <;> (try split at hstp) <;> simp [step, hn] at hstp
             obtain ⟨toks, ht, hrn, htr⟩ :=
-              (raw_all o (2 * v.length + 2)).1 e.out _ (c :: s) b' rest f r0 hnn hlen hbt hr
+              (raw_all o (3 * v.length + 4)).1 e.out _ (c :: s) b' rest f r0 hnn hlen hbt hr
             refine ⟨toks, rest, f.bump :: r0, ns, by rw [hsrc]; exact ht, hout _ hrn, htr ns, ?_⟩
             refine ⟨hI.opts, hinv, hab, ?_, fun hd => ?_⟩
             · have hs : step o.maxDepth (f :: r0) .lit = some (f.bump :: r0) := by simp [step, hnn]
